@@ -1,7 +1,7 @@
 /-
   C20 model — string formatting (types/format.go, px/format.go and the ToString methods of the value kinds).
 
-  Mirrors (file func → definition), the code AS IT IS NOW (after the `fix:` commits 4967a97 … 25b91c3):
+  Mirrors (file func → definition), the code AS IT IS NOW (after the `fix:` commits 4967a97 … 25b91c3 and the simpleFormat delimiter fix):
     px/format.go      FormatPattern                  → `matchPattern` (flags are ` [+#0{<(|-`, width `[1-9][0-9]*`, `.prec`, one letter)
     types/format.go   parseFormat, hasDelimOnce      → `parseFormat` (repeated-flag and two-delimiter errors in the code's order)
     types/format.go   simpleFormat/basicFormat, DefaultFormat, DefaultContainerFormats → `simpleFmt`, `basicFmt`, `defaultTree`, `defaultCF`
@@ -171,11 +171,12 @@ def parseFormat (orig : Str) (sep sep2 : Option Str) : Except Code Fmt :=
 /-- `newFormat` -/
 def newFormat (orig : Str) : Except Code Fmt := parseFormat orig none none
 
-def basicFmt (c : Char) (sep2 : Option Str) (ld : Char) : Fmt :=
+def basicFmt (c : Char) (sep2 : Option Str) (ld : Option Char) : Fmt :=
   { alt := false, left := false, zeroPad := false, letter := c, plus := none, prec := none, width := none,
-    ldelim := some ld, sep := some [','], sep2 := sep2, orig := ['%', c] }
+    ldelim := ld, sep := some [','], sep2 := sep2, orig := ['%', c] }
 
-def simpleFmt (c : Char) : Fmt := basicFmt c none '['
+/-- `simpleFormat`: no left delimiter — a container formatted by a simple format uses its own default delimiters -/
+def simpleFmt (c : Char) : Fmt := basicFmt c none none
 
 def plusStr (f : Fmt) : Str := match f.plus with | some c => [c] | none => []
 def delimStr (f : Fmt) : Str := match f.ldelim with | some d => if f.plus = some d then [] else [d] | none => []
@@ -637,7 +638,7 @@ def defaultTree : FTree := .mk (simpleFmt 's') none
 
 def defaultCF : FMap := [
   (.float, .mk (simpleFmt 'p') none), (.numeric, .mk (simpleFmt 'p') none),
-  (.arr, .mk (basicFmt 'p' (some [',']) '[') none), (.hash, .mk (basicFmt 'p' (some " => ".toList) '{') none),
+  (.arr, .mk (basicFmt 'p' (some [',']) (some '[')) none), (.hash, .mk (basicFmt 'p' (some " => ".toList) (some '{')) none),
   (.bin, .mk (simpleFmt 'p') none), (.any, .mk (simpleFmt 'p') none)]
 
 /-- `px.GetFormat` -/
